@@ -603,6 +603,17 @@ func toSendLargeFileOptions(opts *pb.FileOptions) (*types.SendLargeFileOptions, 
 func toSendLargeFileChunks(file types.LinuxFile, ids []string) []*types.SendLargeFileOptions {
 	maxChunkSize := types.SendLargeFileChunkSize
 	ret := make([]*types.SendLargeFileOptions, 0)
+	if len(file.Content) == 0 {
+		// an empty file still has to be created on every target: one chunk without content
+		return append(ret, &types.SendLargeFileOptions{
+			IDs:   ids,
+			Dst:   file.Filename,
+			Mode:  file.Mode,
+			UID:   file.UID,
+			GID:   file.GID,
+			Chunk: []byte{},
+		})
+	}
 	for idx := 0; idx < len(file.Content); idx += maxChunkSize {
 		sendLargeFileOptions := &types.SendLargeFileOptions{
 			IDs:  ids,
